@@ -41,7 +41,7 @@ def main(tier, seed):
     cov = aggregate(results)
     cov["rule"] = ("register layouts from vf/gen/muxlayouts.py (widths 0..2*dw+1 (thorough 4*dw), r/w/rw, implicit/explicit/"
                    "unaligned/padded placement, map alignment, shadow_overlaps None/0/1/2) x full BFS, free driver")
-    return finish(PID, tier, seed, "model_checking", cov, ASSUMPTIONS, t0, results)
+    return finish(PID, tier, seed, "model_checking", cov, ASSUMPTIONS, t0, results, min_explored=int(0.9 * len(results)))
 
 
 ASSUMPTIONS = [
